@@ -34,6 +34,7 @@ func init() {
 			{Name: "already-exists-sentinel-code", File: "pkg/resource/opt.go", Old: "status.Error(codes.AlreadyExists, \"value already exists\")", New: "status.Error(codes.FailedPrecondition, \"value already exists\")", Expect: "R01.6"},
 			{Name: "genid-probes-raw-candidate", File: "pkg/resource/collection.go", Old: "\t\tif c.idInterceptor != nil {\n\t\t\tcandidate = c.idInterceptor(candidate)\n\t\t}\n\t\t_, exists := c.byId[candidate]", New: "\t\t_, exists := c.byId[candidate]", Expect: "R01.7"},
 			{Name: "get-skips-interceptor", File: "pkg/resource/collection.go", Old: "func (c *Collection) Get(id string, opts ...ReadOption) (proto.Message, bool) {\n\tif c.idInterceptor != nil {\n\t\tid = c.idInterceptor(id)\n\t}\n", New: "func (c *Collection) Get(id string, opts ...ReadOption) (proto.Message, bool) {\n", Expect: "R01.7"},
+			{Name: "delete-discards-mapped-id", File: "pkg/resource/collection.go", Old: "func (c *Collection) Delete(id string, opts ...WriteOption) (proto.Message, error) {\n\tif c.idInterceptor != nil {\n\t\tid = c.idInterceptor(id)\n\t}", New: "func (c *Collection) Delete(id string, opts ...WriteOption) (proto.Message, error) {\n\tif c.idInterceptor != nil {\n\t\t_ = c.idInterceptor(id)\n\t}", Expect: "R01.7"},
 			{Name: "explicit-unlock", Silent: true, File: "pkg/resource/collection.go", Old: "\tc.mu.RLock()\n\tdefer c.mu.RUnlock()\n\n\tentry, ok := c.byId[id]\n\tif !ok {\n\t\treturn nil, false\n\t}\n\n\treturn readConfig.FilterClone(entry.body), true",
 				New: "\tc.mu.RLock()\n\tentry, ok := c.byId[id]\n\tif !ok {\n\t\tc.mu.RUnlock()\n\t\treturn nil, false\n\t}\n\tres := readConfig.FilterClone(entry.body)\n\tc.mu.RUnlock()\n\treturn res, true"},
 		},
@@ -745,10 +746,12 @@ func deref(t types.Type) types.Type {
 // sortedAscendingByID: the slice value v passed through a sort whose less is
 // s[i].id < s[j].id (accepted idioms listed in DESIGN R01.4) before `at`.
 func sortedAscendingByID(c *an.Ctx, fn *ssa.Function, slice ssa.Value, at ssa.Instruction) (bool, string) {
-	for _, call := range an.CallsTo(fn, "sort.Slice", "sort.SliceStable") {
-		if !an.Dominates(call, at) {
+	for _, vc := range an.CallsToDeep(fn, "sort.Slice", "sort.SliceStable") {
+		// the sort itself, or a helper that always sorts its argument (`sortByID(items)`)
+		if !vc.Must || !an.Dominates(vc.Site, at) {
 			continue
 		}
+		call := vc.Inner
 		// first arg (boxed) is the same slice
 		same := false
 		for _, s := range an.Sources(call.Common().Args[0]) {
@@ -779,10 +782,65 @@ func sortedAscendingByID(c *an.Ctx, fn *ssa.Function, slice ssa.Value, at ssa.In
 		}
 		return true, ""
 	}
-	for _, call := range an.CallsTo(fn, "slices.SortFunc", "slices.SortStableFunc") {
-		if an.Dominates(call, at) {
-			return false, "slices.SortFunc idiom present but not analysed"
+	for _, vc := range an.CallsToDeepMatch(fn, func(n string) bool {
+		return strings.HasPrefix(n, "slices.SortFunc") || strings.HasPrefix(n, "slices.SortStableFunc")
+	}) {
+		if !vc.Must || !an.Dominates(vc.Site, at) {
+			continue
 		}
+		call := vc.Inner
+		same := false
+		for _, s := range an.Sources(call.Common().Args[0]) {
+			for _, t := range an.Sources(slice) {
+				if s == t {
+					same = true
+				}
+			}
+		}
+		if !same {
+			continue
+		}
+		cmpFn := an.ClosureFn(call.Common().Args[1])
+		if cmpFn == nil || len(cmpFn.Params) != 2 {
+			return false, "the comparison argument of slices.SortFunc is not a function literal"
+		}
+		// cmp returns strings.Compare(a.id, b.id) / cmp.Compare(a.id, b.id) with a, b its parameters in order
+		fieldOfParam := func(v ssa.Value) (int, string) {
+			base, _, f, ok := an.FieldOf(v)
+			if !ok {
+				return -1, ""
+			}
+			for _, s := range an.SourcesOpaque(base) {
+				for i, p := range cmpFn.Params {
+					if s == ssa.Value(p) {
+						return i, f
+					}
+				}
+			}
+			// a struct parameter kept in memory: the field address is taken of its local copy
+			if al, isAl := base.(*ssa.Alloc); isAl {
+				for _, st := range an.StoresTo(an.CellOf(al)) {
+					for i, p := range cmpFn.Params {
+						if st.Val == ssa.Value(p) {
+							return i, f
+						}
+					}
+				}
+			}
+			return -1, ""
+		}
+		for _, r := range an.Returns(cmpFn) {
+			cl, ok := r.Results[0].(*ssa.Call)
+			if !ok || !(an.CalleeName(cl) == "strings.Compare" || strings.HasPrefix(an.CalleeName(cl), "cmp.Compare")) || len(cl.Call.Args) != 2 {
+				return false, "the comparison function does not return strings.Compare / cmp.Compare of the two ids"
+			}
+			i0, f0 := fieldOfParam(cl.Call.Args[0])
+			i1, f1 := fieldOfParam(cl.Call.Args[1])
+			if i0 != 0 || i1 != 1 || f0 != "id" || f1 != "id" {
+				return false, "the comparison function does not compare a.id with b.id in ascending order"
+			}
+		}
+		return true, ""
 	}
 	return false, "no sort of the listed items dominates their use"
 }
@@ -885,17 +943,28 @@ func r015(c *an.Ctx) {
 		}
 	}
 	// loop bounded by a constant
+	// (a loop header, whatever go/ssa calls it: a block that ends in a test of one of its own phis against a constant)
 	bounded := false
 	for _, b := range fn.Blocks {
-		if b.Comment == "for.loop" {
-			if iff, ok := b.Instrs[len(b.Instrs)-1].(*ssa.If); ok {
-				if bo, ok := iff.Cond.(*ssa.BinOp); ok {
-					for _, v := range an.ValuesAt(bo.Y) {
-						if _, isC := an.ConstInt(v); isC {
-							bounded = true
-						}
-					}
-				}
+		iff, ok := b.Instrs[len(b.Instrs)-1].(*ssa.If)
+		if !ok {
+			continue
+		}
+		bo, ok := iff.Cond.(*ssa.BinOp)
+		if !ok || (bo.Op != token.LSS && bo.Op != token.LEQ && bo.Op != token.NEQ) {
+			continue
+		}
+		// the counter: a phi of this function, tested directly or just after its increment (rotated range-over-int loops)
+		x := bo.X
+		if add, isAdd := x.(*ssa.BinOp); isAdd && add.Op == token.ADD {
+			x = add.X
+		}
+		if _, isPhi := x.(*ssa.Phi); !isPhi {
+			continue
+		}
+		for _, v := range an.ValuesAt(bo.Y) {
+			if _, isC := an.ConstInt(v); isC {
+				bounded = true
 			}
 		}
 	}
@@ -1030,71 +1099,151 @@ func r017(c *an.Ctx) {
 			c.Unk(rule, name+"|id mapped", fn.Pos(), "no id parameter")
 			continue
 		}
-		// the interceptor is applied to the id parameter under a non-nil guard, its result replaces the id
-		// (phi or the spilled cell), and that happens before any use of the id as a key
-		var icall *ssa.Call
-		an.Instrs(fn, func(in ssa.Instruction) {
+		// Every use of the id is a use of the MAPPED id: no path from the entry to a use of an id-derived value avoids both
+		// an application of the interceptor to the id and the `idInterceptor == nil` edge - wherever the application is
+		// written (inline under a nil test, in a local closure, in a helper such as interceptID) - and the value that
+		// is used is not the raw parameter alone.
+		isApply := func(in ssa.Instruction) bool {
 			call, ok := in.(*ssa.Call)
 			if !ok || an.CalleeName(call) != "dynamic" || len(call.Call.Args) != 1 {
-				return
+				return false
 			}
-			if _, _, f, ok := an.FieldOf(call.Call.Value); !ok || f != "idInterceptor" {
-				return
+			_, _, f, isF := an.FieldOf(call.Call.Value)
+			return isF && f == "idInterceptor"
+		}
+		nilEdge := func(from, to *ssa.BasicBlock) bool {
+			iff, isIf := from.Instrs[len(from.Instrs)-1].(*ssa.If)
+			if !isIf || len(from.Succs) != 2 || from.Succs[0] == from.Succs[1] {
+				return false
 			}
-			fromParam := false
-			for _, s := range an.Sources(call.Call.Args[0]) {
-				if s == ssa.Value(idp) {
-					fromParam = true
+			x, trueMeansNil, isNil := an.NilTest(iff.Cond)
+			if !isNil {
+				return false
+			}
+			if _, _, f, isF := an.FieldOf(x); !isF || f != "idInterceptor" {
+				return false
+			}
+			if trueMeansNil {
+				return to == from.Succs[0]
+			}
+			return to == from.Succs[1]
+		}
+		// values that carry the id: the parameter, what is computed from it (phis, the interceptor's or a helper's result)
+		// and loads of the variable it lives in when closures capture it
+		derived := func(v ssa.Value) (fromID, mappedToo bool) {
+			for _, s0 := range an.Sources(v) {
+				if s0 == ssa.Value(idp) {
+					fromID = true
+				}
+				if call, isCall := s0.(*ssa.Call); isCall && isApply(call) {
+					for _, a := range an.Sources(call.Call.Args[0]) {
+						if a == ssa.Value(idp) {
+							fromID, mappedToo = true, true
+						}
+					}
 				}
 			}
-			if fromParam && (an.KnownNonNil(call.Call.Value, call) || guardByField(call, "idInterceptor")) {
-				icall = call
+			if ld, isLoad := v.(*ssa.UnOp); isLoad && ld.Op == token.MUL {
+				if cell := an.CellOf(ld.X); cell != nil {
+					for _, st := range an.StoresTo(cell) {
+						f2, m2 := false, false
+						if st.Val == ssa.Value(idp) {
+							f2 = true
+						} else {
+							for _, s0 := range an.Sources(st.Val) {
+								if call, isCall := s0.(*ssa.Call); isCall && isApply(call) {
+									f2, m2 = true, true
+								}
+								if s0 == ssa.Value(idp) {
+									f2 = true
+								}
+							}
+						}
+						fromID, mappedToo = fromID || f2, mappedToo || m2
+					}
+				}
 			}
-		})
-		if icall == nil {
+			return
+		}
+		applied := false
+		eachInstrDeep01(fn, func(in ssa.Instruction) { applied = applied || isApply(in) })
+		if !applied {
 			c.Bad(rule, name+"|id mapped through the interceptor", fn.Pos(), "the id is not passed through config.idInterceptor when one is configured: an item written under one spelling is not found under another")
 			continue
 		}
-		// result replaces the id: flows into a phi with the parameter, or is stored into the parameter's cell
-		replaces := false
-		for _, u := range an.Referrers(icall) {
-			switch x := u.(type) {
-			case *ssa.Phi:
-				replaces = true
-			case *ssa.Store:
-				for _, u2 := range an.Referrers(idp) {
-					if st, ok := u2.(*ssa.Store); ok && st.Addr == x.Addr {
-						replaces = true
+		bad, where := "", fn.Pos()
+		nUses := 0
+		an.Instrs(fn, func(in ssa.Instruction) {
+			switch in.(type) {
+			case *ssa.Phi, *ssa.DebugRef, *ssa.Store, *ssa.If:
+				return
+			}
+			if isApply(in) || bad != "" {
+				return
+			}
+			if call, isCall := in.(*ssa.Call); isCall && an.TransparentCallee(call) != nil {
+				// a helper that is looked through: its body is searched as part of the paths below
+				if h := an.TransparentCallee(call); an.BodyWith(h, isApply) != nil {
+					return
+				}
+			}
+			uses, mapped := false, false
+			for _, op := range in.Operands(nil) {
+				if *op == nil {
+					continue
+				}
+				f, m := derived(*op)
+				if al, isAddr := (*op).(*ssa.Alloc); isAddr {
+					// the id's own variable handed to a closure: the closure reads the id from it
+					if _, isMC := in.(*ssa.MakeClosure); !isMC {
+						continue
+					}
+					f, m = false, false
+					if cell := an.CellOf(al); cell != nil {
+						for _, st := range an.StoresTo(cell) {
+							if st.Val == ssa.Value(idp) {
+								f = true
+							}
+							for _, s0 := range an.Sources(st.Val) {
+								if call, isCall := s0.(*ssa.Call); isCall && isApply(call) {
+									m = true
+								}
+							}
+						}
+					}
+					if !f {
+						continue
+					}
+				}
+				uses, mapped = uses || f, mapped || m
+			}
+			if !uses {
+				return
+			}
+			// a load of the id's own variable is not a use; what is done with the loaded value is
+			if ld, isLoad := in.(*ssa.UnOp); isLoad && ld.Op == token.MUL {
+				return
+			}
+			// the nil test of the interceptor itself, and building the argument of the application
+			if bo, isBO := in.(*ssa.BinOp); isBO {
+				if x, _, isNil := an.NilTest(bo); isNil {
+					if _, _, f, isF := an.FieldOf(x); isF && f == "idInterceptor" {
+						return
 					}
 				}
 			}
-		}
-		// key uses: map accesses, closures (they capture the id), comparisons with an event's Id, nested Pull
-		var guardIf ssa.Instruction
-		for _, e := range an.GuardingEdges(icall) {
-			if _, _, ok := an.NilTest(e.If.Cond); ok {
-				guardIf = e.If
+			nUses++
+			if !mapped {
+				bad, where = "the raw id parameter is used although the interceptor's result is available", in.Pos()
+				return
 			}
-		}
-		early := ""
-		if guardIf != nil {
-			an.Instrs(fn, func(in ssa.Instruction) {
-				isKeyUse := false
-				switch x := in.(type) {
-				case *ssa.Lookup, *ssa.MapUpdate, *ssa.MakeClosure, *ssa.Go:
-					isKeyUse = true
-				case *ssa.Call:
-					if an.CalleeName(x) == "builtin delete" {
-						isKeyUse = true
-					}
-				}
-				if isKeyUse && !an.Dominates(guardIf, in) {
-					early = c.Prog.Rel(in.Pos())
-				}
-			})
-		}
-		c.Check(replaces && guardIf != nil && early == "", rule, name+"|id mapped through the interceptor", icall.Pos(), "interceptor result replaces the id before any key use",
-			fmt.Sprintf("the interceptor's result does not replace the id (%v) or the id is used before it is mapped (%s)", replaces, early))
+			t, _ := an.PathQuery{Target: func(x ssa.Instruction) bool { return x == in }, Avoid: isApply, AvoidEdge: nilEdge}.From(fn, nil)
+			if t != nil {
+				bad, where = "a path reaches a use of the id without the interceptor having been applied although one may be configured", in.Pos()
+			}
+		})
+		c.Check(bad == "" && nUses > 0, rule, name+"|id mapped through the interceptor", where, fmt.Sprintf("%d uses of the id, all of the mapped id", nUses),
+			"the id is not passed through config.idInterceptor before it is used ("+bad+"): an item written under one spelling is not found under another")
 	}
 	// genID: the generated id that Update uses as key / reports must be the mapped one
 	gen := mustFunc(c, rule, resPkg, "Collection", "genID")
@@ -1291,4 +1440,12 @@ func sendTimeoutError(fn *ssa.Function, r *ssa.Return) bool {
 		}
 	}
 	return false
+}
+
+// eachInstrDeep01 visits the instructions of fn and of the callees of fn the analyses look through.
+func eachInstrDeep01(fn *ssa.Function, f func(ssa.Instruction)) {
+	an.Instrs(fn, f)
+	for _, h := range an.TransparentCalleesOf(fn, 2) {
+		an.Instrs(h, f)
+	}
 }
